@@ -186,6 +186,11 @@ class C12(Profile):
             for off, (at, a) in enumerate(zip(pos, late)):
                 rest.insert(at + off, dict(a, late=True))
             ops = rest
+        if rng.random() < 0.25:
+            # the environment: entries in the store directory that no add produced (stray directories, a pre-created skeleton)
+            for _ in range(rng.randrange(1, 4)):
+                ops.insert(rng.randrange(len(ops) + 1), {'op': 'stray', 'k': rng.randrange(n_ids), 'n': rng.randrange(100),
+                                                         'where': rng.choice(['type', 'type', 'type', 'skeleton', 'root'])})
         return {'config': cfg, 'pool': pool, 'ops': ops}
 
     def simplify(self, op):
@@ -218,6 +223,8 @@ class C12(Profile):
             world.stat('op:' + op['op'])
             if op['op'] == 'add':
                 self.op_add(sw, world, op)
+            elif op['op'] == 'stray':
+                sw.stray(op['k'], op['n'], op['where'])
             else:
                 self.op_query(sw, world, op)
 
